@@ -250,6 +250,20 @@ func (f *frame) applyContract(callee *ssa.Function, con *Contract, args []Val, s
 	for i, rq := range con.Requires {
 		c.oblige(st, f.path, fmt.Sprintf("pre@%s#%d", relName(callee), i+1), env.Eval(rq.Expr).Term, "precondition of "+FuncKey(callee)+": "+rq.Text, pos)
 	}
+	// recursion: the measure must decrease
+	if callee == c.top {
+		if con.Decreases != nil {
+			mCall := env.Eval(con.Decreases.Expr).Term
+			e0 := &SpecEnv{G: g, Pkg: callee.Pkg.Pkg, Vars: map[string]SV{}, Cur: c.entry, Old: c.entry, Next0: c.entry.next}
+			for i, p := range callee.Params {
+				e0.Vars[p.Name()] = SV{Term: c.topArgs[i].T, Typ: p.Type()}
+			}
+			m0 := e0.Eval(con.Decreases.Expr).Term
+			c.oblige(st, f.path, "decr-rec", fmt.Sprintf("(and (>= %s 0) (< %s %s))", m0, mCall, m0), "recursive call decreases "+con.Decreases.Text, pos)
+		} else {
+			c.oblige(st, f.path, "decr-rec", "false", "recursive call without a decreases measure (termination not shown)", pos)
+		}
+	}
 	// havoc
 	if con.HasModifies {
 		var hs []string
@@ -306,10 +320,7 @@ func (f *frame) builtin(bi *ssa.Builtin, cm *ssa.CallCommon, pos token.Pos, st *
 		case *types.Basic:
 			return Val{T: c.define(name, SInt, "(Str_len "+x.T+")"), Typ: resT}
 		case *types.Map:
-			dom, _, ks, _ := g.TE.MapHeaps(cm.Args[0].Type())
-			uf := g.UF("card_"+sanitize(ks), []string{fmt.Sprintf("(Array %s Bool)", ks)}, SInt)
-			n := c.define(name, SInt, fmt.Sprintf("(ite (= %s nil) 0 (%s (select %s %s)))", x.T, uf, st.Heap(dom), x.T))
-			c.assume(st, fmt.Sprintf("(>= %s 0)", n))
+			n := c.define(name, SInt, g.mapLen(cm.Args[0].Type(), x.T, st))
 			return Val{T: n, Typ: resT}
 		case *types.Pointer:
 			at := cm.Args[0].Type().Underlying().(*types.Pointer).Elem().Underlying().(*types.Array)
@@ -475,14 +486,36 @@ func instrIndex(in ssa.Instruction) int {
 type rangeState struct {
 	x    Val
 	typ  types.Type
-	seen string // ghost visited set (maps)
+	seen string // name of the ghost heap holding the visited key set (maps)
+	dom0 string // key set of the map when the range statement started
+}
+
+// seenHeap names the ghost "visited keys" set of a range-over-map statement.
+func (g *Gen) seenHeap(in *ssa.Range) string {
+	mt, ok := in.X.Type().Underlying().(*types.Map)
+	if !ok {
+		return ""
+	}
+	h := "G_ghost_seen_" + sanitize(FuncKey(in.Parent())) + "_" + in.Name()
+	g.TE.noteHeapRaw(h, fmt.Sprintf("(Array %s Bool)", g.TE.SortOf(mt.Key())))
+	return h
 }
 
 var rangeStates = map[*ssa.Range]*rangeState{}
 
 func (f *frame) execRange(in *ssa.Range, st *State) {
 	x := f.val(in.X)
-	rangeStates[in] = &rangeState{x: x, typ: in.X.Type()}
+	rs := &rangeState{x: x, typ: in.X.Type()}
+	if mt, ok := in.X.Type().Underlying().(*types.Map); ok {
+		g := f.c.g
+		rs.seen = g.seenHeap(in)
+		dom, _, ks, _ := g.TE.MapHeaps(in.X.Type())
+		st.heaps[rs.seen] = fmt.Sprintf("((as const (Array %s Bool)) false)", ks)
+		rs.dom0 = f.c.declare("dom0", fmt.Sprintf("(Array %s Bool)", ks))
+		f.c.emit(fmt.Sprintf("(assert (= %s (ite (= %s nil) ((as const (Array %s Bool)) false) (select %s %s))))", rs.dom0, x.T, ks, st.Heap(dom), x.T))
+		_ = mt
+	}
+	rangeStates[in] = rs
 	f.setVal(in, Val{T: "nil", Typ: in.Type()})
 }
 
@@ -509,9 +542,26 @@ func (f *frame) execNext(in *ssa.Next, st *State) {
 	mt := rs.typ.Underlying().(*types.Map)
 	dom, val, ks, _ := g.TE.MapHeaps(rs.typ)
 	k := c.declare(valName(in)+"_k", ks)
-	c.assume(st, fmt.Sprintf("(=> %s (and (not (= %s nil)) (select (select %s %s) %s)))", okv, rs.x.T, st.Heap(dom), rs.x.T, k))
+	seen := st.Heap(rs.seen)
+	c.assume(st, fmt.Sprintf("(=> %s (and (not (= %s nil)) (select (select %s %s) %s) (not (select %s %s))))", okv, rs.x.T, st.Heap(dom), rs.x.T, k, seen, k))
+	// Go: every entry present when the range started and not removed meanwhile is produced exactly once
+	c.assume(st, fmt.Sprintf("(=> (not %s) (forall ((k %s)) (! (=> (and (select %s k) (not (= %s nil)) (select (select %s %s) k)) (select %s k)) :pattern ((select %s k)) :pattern ((select %s k)))))", okv, ks, rs.dom0, rs.x.T, st.Heap(dom), rs.x.T, seen, seen, rs.dom0))
+	st.heaps[rs.seen] = c.define("seen", fmt.Sprintf("(Array %s Bool)", ks), fmt.Sprintf("(ite %s (store %s %s true) %s)", okv, seen, k, seen))
+	c.assumed["range over a map produces every entry that was present when the loop started and is still present, exactly once, in arbitrary order (Go spec); entries deleted and re-inserted during the loop are not modelled"] = true
 	vterm := c.define(valName(in)+"_v", g.TE.SortOf(mt.Elem()), fmt.Sprintf("(select (select %s %s) %s)", st.Heap(val), rs.x.T, k))
 	c.assume(st, c.wellFormed(vterm, mt.Elem(), st.next))
 	c.assume(st, c.wellFormed(k, mt.Key(), st.next))
 	f.setVal(in, Val{Tuple: []Val{{T: okv, Typ: types.Typ[types.Bool]}, f.mkVal(k, mt.Key()), f.mkVal(vterm, mt.Elem())}, Typ: in.Type()})
+}
+
+
+// mapLen is the term for len(m) of a map: the cardinality of its key set (uninterpreted, >= 0).
+func (g *Gen) mapLen(mt types.Type, m string, view HeapView) string {
+	dom, _, ks, _ := g.TE.MapHeaps(mt)
+	name := "card_" + sanitize(ks)
+	if _, ok := g.ufDecl[name]; !ok {
+		g.UF(name, []string{fmt.Sprintf("(Array %s Bool)", ks)}, SInt)
+		g.axioms = append(g.axioms, fmt.Sprintf("(assert (forall ((s (Array %s Bool))) (! (>= (%s s) 0) :pattern ((%s s)))))", ks, name, name))
+	}
+	return fmt.Sprintf("(ite (= %s nil) 0 (%s (select %s %s)))", m, name, view.Heap(dom), m)
 }
